@@ -249,12 +249,13 @@ LastWinsA ==
 
 \* ... and as a constant-level fact over the whole small universe (evaluated once per TLC run; the
 \* guard keeps it out of the wide trace / simulation configurations)
-AllMaps == UNION {[S -> AMOUNT \ {0}] : S \in SUBSET PRICE}
+MapsOver(P) == UNION {[S -> AMOUNT \ {0}] : S \in SUBSET P}     \* (a parameter: TLC evaluates zero-arity
+                                                                  \*  constant definitions eagerly)
 ASSUME FormulationsAgree ==
   Cardinality(PRICE) <= 3 =>
     \A l \in Lists(MaxLong) : \A side \in {"bids", "asks"} :
        /\ ArrangementsOK(l, side)
-       /\ \A m \in AllMaps : UpdateSide(m, l, side) = UpdateSideByPrice(m, l)
+       /\ \A m \in MapsOver(PRICE) : UpdateSide(m, l, side) = UpdateSideByPrice(m, l)
 
 StepProps == SeqIsLastA /\ SnapshotReplacesA /\ UpdatePointwiseA
 
